@@ -131,3 +131,37 @@ def weight_writers(prog) -> set:
                 allowed.add(g.fullname)
                 changed = True
     return allowed
+
+
+def memo_rule(ctx: Ctx, rid: str, fns) -> int:
+    """Memo-key completeness (sa/memo.py) over the given functions: one obligation per memo site - the key must determine every
+    parameter the stored value depends on.  Returns the number of sites."""
+    from ..memo import describe, memo_sites, selfcheck
+    selfcheck()          # the expected number of findings is zero: the built-in examples must be classified on every run
+    n = 0
+    for f in sorted(fns, key=lambda x: x.fullname):
+        for s in memo_sites(f):
+            n += 1
+            key = f"keyed by '{norm(s.key)}'" if s.key is not None else "filled once"
+            ctx.ob(rid, f, s.node, f"memo {s.table} ({key}): the key determines the stored value", not s.missing, describe(s) if s.missing else "")
+    return n
+
+
+def weight_store_sites(f: FunctionInfo) -> list:
+    """statements / calls of f that write the 'weight' entry of a metadata dict: d["weight"] = v, d["weight"] += v, d.setdefault("weight", v),
+    d.update(weight=v) / d.update({"weight": v}), d.__setitem__("weight", v), d.pop("weight") / del d["weight"]"""
+    out = []
+    for nd in walk_local(f.node):
+        if isinstance(nd, (ast.Assign, ast.AugAssign, ast.Delete)):
+            tg = nd.targets if isinstance(nd, (ast.Assign, ast.Delete)) else [nd.target]
+            if any(isinstance(t, ast.Subscript) and isinstance(t.slice, ast.Constant) and t.slice.value == "weight" for t in tg):
+                out.append(nd)
+        elif isinstance(nd, ast.Call) and isinstance(nd.func, ast.Attribute):
+            a0 = nd.args[0] if nd.args else None
+            if nd.func.attr in ("setdefault", "__setitem__", "pop") and isinstance(a0, ast.Constant) and a0.value == "weight" \
+                    and not (nd.func.attr == "pop" and isinstance(nd.func.value, ast.Name) and nd.func.value.id == "kwargs"):
+                out.append(nd)
+            elif nd.func.attr == "update" and (any(k.arg == "weight" for k in nd.keywords) or
+                                               (isinstance(a0, ast.Dict) and any(isinstance(k, ast.Constant) and k.value == "weight" for k in a0.keys))):
+                out.append(nd)
+    return out
